@@ -532,3 +532,12 @@ func writeEvidence(rep *Report, fresh int, knownHit map[int]int64, findings []Fi
 	_ = os.MkdirAll(filepath.Join(root(), "evidence"), 0o755)
 	_ = os.WriteFile(filepath.Join(root(), "evidence", rep.Property+".json"), append(b, '\n'), 0o644)
 }
+
+// AddViolation / AddSample: for custom drivers that run their own exploration.
+func (r *Report) AddViolation(c *Case, class, detail string) {
+	r.Viols = append(r.Viols, violRec{T: "viol", Idx: int64(len(r.Viols)), Case: c, Viols: []Violation{{Class: class, Detail: detail}}})
+}
+
+func (r *Report) AddSample(c *Case, outcome string) {
+	r.Samples = append(r.Samples, sampleRec{c, outcome})
+}
